@@ -1019,6 +1019,10 @@ class Visitor : public RecursiveASTVisitor<Visitor> {
       if (!ov.empty()) f.strs("overrides", ov);
     }
     f.str("kind", kind);
+    // an exception leaving a nothrow function is std::terminate (destructors are nothrow unless declared otherwise)
+    if (const auto* FPT = FD->getType()->getAs<FunctionProtoType>()) {
+      if (!isUnresolvedExceptionSpec(FPT->getExceptionSpecType()) && FPT->isNothrow()) f.boolean("nothrow", true);
+    }
     if (FD->getTemplateInstantiationPattern()) {
       f.boolean("inst", true);
       f.str("pattern", C.usr(FD->getTemplateInstantiationPattern()));
